@@ -146,6 +146,17 @@ func fileContent(format, what string) []byte {
 		return corpus(format, "large")[0]
 	case "longline":
 		return corpus(format, "longline")[0]
+	case "line-70KiB", "line-2MiB": // one very long line between ordinary records
+		n := map[string]int{"line-70KiB": 70000, "line-2MiB": 2<<20 + 3}[what]
+		long := string(longSeq(n))
+		text := map[string]string{
+			"fasta":  ">a\nAC\n>long\n" + long + "\n>b\nGT\n",
+			"fastq":  "@a\nAC\n+\nII\n@long\n" + long + "\n+\n" + long + "\n@b\nG\n+\nI\n",
+			"sam":    "@HD\tVN:1.6\nq0\t0\tr\t1\t9\t1M\t*\t0\t0\tA\tI\nlong\t0\tr\t1\t9\t*\t*\t0\t0\t" + long + "\t" + long + "\nq2\t0\tr\t1\t9\t1M\t*\t0\t0\tA\tI\n",
+			"samh":   "@HD\tVN:1.6\n@CO\t" + long + "\nq2\t0\tr\t1\t9\t1M\t*\t0\t0\tA\tI\n",
+			"bed":    "a\t0\t1\tn\nlong\t5\t6\t" + long + "\nb\t2\t3\tm\n",
+			"newick": "(a,b);\n(" + long + ":1,c)r;\n(d);\n"}[format]
+		return []byte(text)
 	case "huge", "multimember": // ~300 KiB: many OS-level reads and several gzip blocks
 		return bytes.Repeat(corpus(format, "large")[0], 32)
 	case "error-middle": // a malformed record in the middle, well-formed ones after it
@@ -254,10 +265,10 @@ func runC06(r *core.Run) {
 	scratch := filepath.Join(r.Root, ".scratch", fmt.Sprintf("c06-%d", os.Getpid()))
 	os.MkdirAll(scratch, 0o755)
 	defer os.RemoveAll(scratch)
-	core.Clause(r, "file-grid", core.Opts{Rule: "every format (SAM: File and FileHeader) x {plain, .gz written with compress/gzip} x content {empty file, one record, many records, a file whose decode ends in an error item, the 9 KiB file, the long-line file, a ~300 KiB file} plus a multi-member .gz: File(path) yields what Reader yields on the bytes; a missing path yields exactly one item, an error; non-trivial = all"},
+	core.Clause(r, "file-grid", core.Opts{Rule: "every format (SAM: File and FileHeader) x {plain, .gz written with compress/gzip} x content {empty file, one record, many records, a file whose decode ends in an error item, the 9 KiB file, the long-line file, a file with one line of 70 000 bytes, one with a line of 2 MiB, a ~300 KiB file} plus a multi-member .gz: File(path) yields what Reader yields on the bytes; a missing path yields exactly one item, an error; non-trivial = all"},
 		func(emit func(c06File) bool) {
 			for _, f := range formats {
-				for _, what := range []string{"empty", "one", "many", "error", "error-middle", "large", "longline", "huge", "missing"} {
+				for _, what := range []string{"empty", "one", "many", "error", "error-middle", "large", "longline", "line-70KiB", "line-2MiB", "huge", "missing"} {
 					for _, gz := range []bool{false, true} {
 						emit(c06File{f.Name, what, gz})
 					}
